@@ -127,7 +127,13 @@ class lldp (packet_base):
       return
 
     if type in lldp.tlv_parsers:
-      self.tlvs.append(lldp.tlv_parsers[type](array[0: 2 + length]))
+      try:
+        tlv = lldp.tlv_parsers[type](array[0: 2 + length])
+      except Exception as e:
+        self.msg('(lldp tlv parse) warning malformed TLV type %u: %s'
+                 % (type, e))
+        return
+      self.tlvs.append(tlv)
       return 2 + length
     else:
       self.msg('(lldp tlv parse) warning unknown tlv type (%u)'
